@@ -65,7 +65,7 @@ def gen_material(rng, tier):
                       "Voce": ["Voce", float(np.round(rng.uniform(0.5, 3), 2)), float(np.round(rng.uniform(5, 200), 1))],
                       "Swift": ["Swift", float(np.round(rng.uniform(5, 50), 1)), float(np.round(rng.uniform(0.1, 0.6), 2))]}[h]
     nk = int(rng.choice([0, 0, 1, 2]))
-    c["kinematic"] = [[float(np.round(rng.uniform(10, 300), 1)), float(np.round(rng.uniform(0, 50), 1)) if rng.random() < 0.5 else 0.0] for _ in range(nk)] if y != "none" else []
+    c["kinematic"] = [[float(np.round(rng.uniform(10, 300), 1)), float(np.round(10 ** rng.uniform(0, 3.3), 1)) if rng.random() < 0.5 else 0.0] for _ in range(nk)] if y != "none" else []
     c["rate"] = None
     if y != "none" and rng.random() < 0.2:
         c["rate"] = [["Norton", "Perzyna"][int(rng.integers(2))], float(np.round(10 ** rng.uniform(-2, 2), 4)), float(np.round(rng.uniform(1, 3), 1))]
@@ -444,7 +444,49 @@ class MatWorld(World):
             raise Violation("tangent-not-derivative", f"algorithmic tangent differs from the central difference of the returned stress by {err:.3e} (scale {cs:.3e}) [{self.c['yield']}, {self.c['hardening'][0]}, kin {len(self.c['kinematic'])}, {'plane stress' if self.c['planeStress'] else self.c['dim']}]")
         ctx.checked()
         ctx.probe("tangent_checked")
+        if self.c["planeStress"]:
+            self._check_condensed_tangent(eps, dt, C, z0, conv)
         return "ok"
+
+    def _check_condensed_tangent(self, eps, dt, C2, z0, conv):
+        """Plane stress only.  The returned in-plane tangent must be the static condensation (zz row AND column) of the
+        tangent a 3D behaviour made of the same pieces returns at the 6-component strain the plane-stress solve found:
+        C_in - c_iz c_zi / c_zz, formed here with dense numpy.  Finite differences (above) are too coarse in plane stress
+        to see an error of the order of the tangent's asymmetry."""
+        ctx, beh, F = self.ctx, self.beh, self.FeArray
+        if getattr(self, "beh3", None) is None:
+            try:
+                with ctx.sut():
+                    self.beh3, _ = build_behavior(dict(self.c, dim=3, planeStress=False))
+            except (SutError, TypeError):
+                self.beh3 = False
+        if not self.beh3:
+            return
+        try:
+            with ctx.sut():
+                eps6 = beh.Compute_strain_6d(F.asfearray(eps.copy()), self.zOld, dt)
+                out = self.beh3.Integrate(F.asfearray(np.asarray(eps6).copy()), self.zOld, dt)
+        except SutError:
+            ctx.probe("condensed_tangent_reference_unavailable")
+            return
+        C3 = np.asarray(out[1]) if len(out) > 1 and out[1] is not None else None
+        if C3 is None or C3.shape[-1] != 6:
+            ctx.probe("condensed_tangent_reference_unavailable")
+            return
+        Cin = C3[..., IDX_2D, :][..., :, IDX_2D]
+        ciz = C3[..., IDX_2D, ZZ]
+        czi = C3[..., ZZ, :][..., IDX_2D]
+        czz = C3[..., ZZ, ZZ]
+        ref = Cin - ciz[..., :, None] * czi[..., None, :] / czz[..., None, None]
+        good = np.asarray(conv, dtype=bool)
+        if not good.any():
+            return
+        cs = max(refs.maxabs(ref[good]), 1e-300)
+        err = np.max(np.abs((np.asarray(C2) - ref)[good]))
+        if not err <= 1e-6 * cs:
+            raise Violation("tangent-not-derivative", f"plane stress: the in-plane algorithmic tangent differs from the static condensation of the 3D tangent of the same material at the same state by {err:.3e} (scale {cs:.3e}; asymmetry of the 3D tangent {np.max(np.abs(C3 - np.swapaxes(C3, -1, -2))[good]):.3e}) [{self.c['yield']}, {self.c['hardening'][0]}, kin {self.c['kinematic']}]")
+        ctx.checked()
+        ctx.probe("condensed_tangent_checked")
 
     # ------------------------------------------------------------------ simulation actor
     def _sim_load(self, val):
@@ -487,6 +529,7 @@ class MatWorld(World):
                 # what a Save_Iter right after a failed attempt commits is not specified: no oracle on the next save
                 self.sim_solved_since_commit = True
                 self.sim_monotone_ok = False
+                self.sim_had_failed_attempt = True  # from now on a state (live or saved) may be that of a diverged Newton loop
             if z1 != z0:
                 raise Violation("solve-advanced-committed-state", f"the committed internal variables changed during Solve ({'failed' if failed else 'successful'}); only Save_Iter may advance the history")
             ctx.checked()
@@ -570,9 +613,17 @@ class MatWorld(World):
             return "ok"
         if name == "sim_result":
             u0, z0 = self._sim_state()
-            with ctx.sut():
-                sim.Result("Svm")
-                sim.Result("Stress", nodeValues=False)
+            try:
+                with ctx.sut():
+                    sim.Result("Svm")
+                    sim.Result("Stress", nodeValues=False)
+            except SutError as e:
+                if getattr(self, "sim_had_failed_attempt", False) and "did not converge" in str(e.exc):
+                    # results of a state left by a diverged Newton loop (then perhaps saved): the local iterations may
+                    # refuse it, that is not a property of a state Integrate returned as converged
+                    ctx.probe("result_refused_on_a_diverged_state")
+                    return "noconv-state"
+                raise
             if self._sim_state() != (u0, z0):
                 raise Violation("read-alters-simulation", "Result() changed the displacement or the committed internal variables")
             ctx.checked()
